@@ -338,13 +338,13 @@ static void run_cut(int fidx, size_t cut) {
     if (f.kind == "gds") {
         for (int rep = 0; rep < 3; rep++) {
             {   // full load, three parameterisations
-                for (int mode = 0; mode < 3; mode++) {
+                for (int mode = 0; mode < 4; mode++) {   // mode 3: the caller passes no error pointer - the empty result is then the only failure signal
                     ErrorCode ec = ErrorCode::NoError;
                     Set<Tag> filter = {};
                     filter.add(make_tag(1, 0));
-                    Library lib = read_gds(path, mode == 2 ? 1e-9 : 0, 1e-2, mode == 1 ? &filter : NULL, &ec);
+                    Library lib = read_gds(path, mode == 2 ? 1e-9 : 0, 1e-2, mode == 1 ? &filter : NULL, mode == 3 ? NULL : &ec);
                     filter.clear();
-                    if (!is_error(ec)) viol(f, cut, "read_gds", "no-error", fmt("error code %d is not an error for a truncated file (mode %d)", (int)ec, mode), fidx);
+                    if (mode != 3 && !is_error(ec)) viol(f, cut, "read_gds", "no-error", fmt("error code %d is not an error for a truncated file (mode %d)", (int)ec, mode), fidx);
                     if (lib.cell_array.count || lib.rawcell_array.count || lib.name) viol(f, cut, "read_gds", "shortened-layout", fmt("returned %llu cells for a truncated file", (unsigned long long)lib.cell_array.count), fidx);
                     lib.free_all();
                     fdcheck("read_gds", rep);
@@ -357,6 +357,12 @@ static void run_cut(int fidx, size_t cut) {
                 if (m.count) viol(f, cut, "read_rawcells", "shortened-layout", fmt("returned %llu raw cells for a truncated file", (unsigned long long)m.count), fidx);
                 for (MapItem<RawCell*>* it = m.next(NULL); it; it = m.next(it)) { it->value->clear(); free_allocation(it->value); }
                 m.clear();
+                fdcheck("read_rawcells", rep);
+                // without an error pointer
+                Map<RawCell*> m2 = read_rawcells(path, NULL);
+                if (m2.count) viol(f, cut, "read_rawcells", "shortened-layout", fmt("returned %llu raw cells for a truncated file (no error pointer)", (unsigned long long)m2.count), fidx);
+                for (MapItem<RawCell*>* it = m2.next(NULL); it; it = m2.next(it)) { it->value->clear(); free_allocation(it->value); }
+                m2.clear();
                 fdcheck("read_rawcells", rep);
             }
             {
@@ -374,6 +380,7 @@ static void run_cut(int fidx, size_t cut) {
             }
             {
                 ErrorCode ec = ErrorCode::NoError;
+                gds_timestamp(path, NULL, NULL);      // no error pointer: must still return normally and release the file
                 tm t = gds_timestamp(path, NULL, &ec);
                 if (!is_error(ec) && !same_tm(t, f.stamp)) viol(f, cut, "gds_timestamp", "wrong-value", "returned a timestamp that is not the complete file's", fidx);
                 fdcheck("gds_timestamp", rep);
@@ -413,6 +420,8 @@ static void run_cut(int fidx, size_t cut) {
                 bool ok = oas_validate(path, &sig, &ec);
                 if (f.signed_oas && ok && ec != ErrorCode::ChecksumError)
                     viol(f, cut, "oas_validate", "matching-signature", "reported a matching signature for a truncated signed file", fidx);
+                fdcheck("oas_validate", rep);
+                oas_validate(path, NULL, NULL);   // no signature / error pointers: must still return normally and release the file
                 fdcheck("oas_validate", rep);
             }
         }
